@@ -47,6 +47,7 @@ import GM.Props.ConvertL
 import GM.Props.ConvertE2EAll
 import GM.Props.ConvertXE2E
 import GM.Props.C15Total
+import GM.Props.ConvertNPX
 
 namespace GM.Props.C01
 open GM
@@ -700,5 +701,62 @@ theorem converth_block_phase_total : type_of% @GM.Props.C15Total.block_phase_h_t
 
 /-- (re-export of `GM.Props.C15Total.block_phase_h_error_is_core_error`) e2e's missing fact: a panic of the block phase with the option is a panic of `convertCore`'s block phase (vacuously: there is none) -/
 theorem converth_block_phase_error_is_core_error : type_of% @GM.Props.C15Total.block_phase_h_error_is_core_error := @GM.Props.C15Total.block_phase_h_error_is_core_error
+
+/-- (re-export of `GM.Props.ConvertNPX.block_phase_with_transformers_total_x`) **The block driver with paragraph transformers is total for the WIDER contract `PTsSpecX`**, every byte string: a transformer
+    call on a Paragraph (with a parent, with lines) must end in `StepX` — only the paragraph's lines change among the old nodes'
+    lines, all lines stay in range, the tree-link frames hold (`TF`, `PLTf`, `TreeOK`), every OTHER node that was the last child of
+    its parent still is (`LK` frame: what keeps the `else` of `last == parent.LastChild()` dead — a Table inserted directly BEHIND
+    the paragraph never displaces a later sibling), and when the paragraph stays attached (`g = false`) it keeps at least one
+    line, old nodes keep their parents and fresh nodes hang below fresh nodes or below the paragraph's parent (`KeepF`) — or answer
+    the guard's outcome `e`. Any number of fresh nodes, any kept sub-list of the lines (prefix or suffix). Conclusion as before:
+    a tree with all lines in range and Lists of ListItems, or `e`; no Go panic, no fuel error, neither retry monitor. -/
+theorem block_phase_with_transformers_total_x : type_of% @GM.Props.ConvertNPX.block_phase_with_transformers_total_x := @GM.Props.ConvertNPX.block_phase_with_transformers_total_x
+
+/-- (re-export of `GM.Props.ConvertNPX.narrow_contract_is_wide`) the narrow contract of GM.Props.ConvertNP (`PTPost`: a suffix of the lines, or ONE fresh TextBlock in the paragraph's place) is a
+    special case, so `block_phase_with_transformers_total` / `block_phase_total` stand as they are -/
+theorem narrow_contract_is_wide : type_of% @GM.Props.ConvertNPX.narrow_contract_is_wide := @GM.Props.ConvertNPX.narrow_contract_is_wide
+
+/-- (re-export of `GM.Props.ConvertNPX.wide_contract_append`) contracts of transformer lists compose -/
+theorem wide_contract_append : type_of% @GM.Props.ConvertNPX.wide_contract_append := @GM.Props.ConvertNPX.wide_contract_append
+
+/-- (re-export of `GM.Props.ConvertNPX.table_transformer_terminates`) the table transformer never exhausts fuel and keeps every reader-only invariant (admissible for the termination theorem) -/
+theorem table_transformer_terminates : type_of% @GM.Props.ConvertNPX.table_transformer_terminates := @GM.Props.ConvertNPX.table_transformer_terminates
+
+/-- (re-export of `GM.Props.ConvertNPX.table_transformer_in_wide_contract`) **the table transformer is inside the wide contract** — behind the check "every line of the paragraph is non-empty and valid"
+    (`tableE e src`: the check answers the parameter `e`; `tblLinesB`): one call is a `StepX` — the fresh subtree (Table, TableHeader,
+    TableRows, TableCells: all `NodeOK`, cell segments inside their row line, `GM.Blocks.TO.parseRow_in`), `SetSliced` of the paragraph's
+    lines (a prefix, last newline cut), `InsertAfter`, `RemoveChild` of an emptied paragraph — tree frames, last-child frame — or `e`. -/
+theorem table_transformer_in_wide_contract : type_of% @GM.Props.ConvertNPX.table_transformer_in_wide_contract := @GM.Props.ConvertNPX.table_transformer_in_wide_contract
+
+/-- (re-export of `GM.Props.ConvertNPX.table_and_linkref_checks_never_fire`) the check is needed for the CONTRACT only (kernel-evaluated witness `GM.Blocks.TO.tableNodesOK_false`: on a hand-built paragraph
+    with an EMPTY line the one-byte cut of `trimLastNewline` inverts the kept segment); in a run it never fires, nor does the link
+    reference guard: with both checks the block phase is the block phase with the bare transformers -/
+theorem table_and_linkref_checks_never_fire : type_of% @GM.Props.ConvertNPX.table_and_linkref_checks_never_fire := @GM.Props.ConvertNPX.table_and_linkref_checks_never_fire
+
+/-- (re-export of `GM.Props.ConvertNPX.block_phase_x_total`) **C01, block phase with the link reference AND the table transformer, every member set of the GFM extensions, EVERY byte string:
+    `blockPhaseX c true src` returns a tree with all line segments in range** — no Go panic of the driver, the block parsers, either
+    transformer or the tree surgery; no fuel error; no contract monitor; neither run-time check (`guardedTransform`'s `WFSegs`, the table
+    model's domain monitor `validB`) fires. -/
+theorem block_phase_x_total : type_of% @GM.Props.ConvertNPX.block_phase_x_total := @GM.Props.ConvertNPX.block_phase_x_total
+
+/-- (re-export of `GM.Props.ConvertNPX.block_phase_x_guard_is_observer`) the run-time checks are observers -/
+theorem block_phase_x_guard_is_observer : type_of% @GM.Props.ConvertNPX.block_phase_x_guard_is_observer := @GM.Props.ConvertNPX.block_phase_x_guard_is_observer
+
+/-- (re-export of `GM.Props.ConvertNPX.block_phase_x_line_facts`) **the line facts of the store with Table on** (`c.table = true`; with Table off `blockPhaseX` is `blockPhase`, GM.Props.ConvertNP):
+    every line of every node is in range; every CHILD that is not raw and not a table record (`thematicBreak`) and has lines has `WF0`
+    lines; table records that are children have padding 0 on all lines; the Document has no lines -/
+theorem block_phase_x_line_facts : type_of% @GM.Props.ConvertNPX.block_phase_x_line_facts := @GM.Props.ConvertNPX.block_phase_x_line_facts
+
+/-- (re-export of `GM.Props.ConvertNPX.block_phase_x_tree_consistent`) parent pointers and child lists of the final store agree (wf0's `TreeOK`); every entry of a child list has that parent and, when
+    not raw, padding 0 on all its lines -/
+theorem block_phase_x_tree_consistent : type_of% @GM.Props.ConvertNPX.block_phase_x_tree_consistent := @GM.Props.ConvertNPX.block_phase_x_tree_consistent
+
+/-- (re-export of `GM.Props.ConvertNPX.block_phase_x_good_but_esc`) **`BlockPhaseXGood` (gfmx's interface) minus its escaped-pipe clause, literally, from `RecordsClassify`** — one member set, one source -/
+theorem block_phase_x_good_but_esc : type_of% @GM.Props.ConvertNPX.block_phase_x_good_but_esc := @GM.Props.ConvertNPX.block_phase_x_good_but_esc
+
+/-- (re-export of `GM.Props.ConvertNPX.convertl_total_of_records_and_esc`) **what is left for C01 end to end with `extension.GFM`**: the two remaining facts about the final store — records classify
+    (`RecordsClassify`), escaped-pipe positions ascend in tree order (gfmx has it per table: `table_escaped_pipe_positions_ascend`; across
+    tables it is a driver fact) — give `∀ c uc o src, ∃ html, convertL c uc o src = .ok html` -/
+theorem convertl_total_of_records_and_esc : type_of% @GM.Props.ConvertNPX.convertl_total_of_records_and_esc := @GM.Props.ConvertNPX.convertl_total_of_records_and_esc
 
 end GM.Props.C01
